@@ -274,8 +274,9 @@ class LinSolve(Module):
         # Update solver with new matrix
         self.solver.update(mat)
 
-        # Solution
-        self.u = self.solver.solve(rhs, x0=self.u)
+        # Solution (the previous solution is only a valid initial guess if it has the same shape)
+        x0 = self.u if (self.u is not None and np.shape(self.u) == np.shape(rhs)) else None
+        self.u = self.solver.solve(rhs, x0=x0)
 
         return self.u
 
